@@ -11,6 +11,8 @@ Stateless exploration on the real ``Field.grad / div / curl / laplace``:
   through their mappings (component <-> axis), never through position or label.
 * ``value_types``: complex and integer-typed fields through all four operators,
   against the operators' own results on the real / imaginary parts (linearity).
+* ``reuse``: a derived field is relabelled / re-mapped / overwritten by the user, then the operators are evaluated
+  on the original again: same result, original untouched.
 * ``identities``: curl(grad f) = 0 and div(curl v) = 0 on every impulse of every
   fully valid 3-D mesh with 1..3 (4) cells per axis, open / periodic.
 * ``rotation``: op(rotate90(f)) == rotate90(op(f)) for every ordered axis pair,
@@ -692,6 +694,85 @@ def unit_value_types(ctx):
     _cmp(ctx, got, exp, scale, f"Field.{op}/value-type/{kind}",
          f"{op} of a {kind}-typed field differs from the same operator on its real and imaginary parts / its float copy", inst)
 
+def unit_reuse(ctx):
+    """Non-initial states: a field is derived from the field under test (negation, derivative, quarter turn, product,
+    padding, Laplacian, component stacking), the DERIVED field is relabelled or re-mapped by the user (vdims /
+    vdim_mapping setters), values of the original are changed in place - and the four operators are evaluated on the
+    ORIGINAL again.  They must give what they gave before (resp. what a fresh field with the current values gives): a
+    derived field is its own object."""
+    ndim = ctx.choose("ndim", [3, 2])
+    perms = list(itertools.permutations(range(ndim)))
+    perm = ctx.choose("mapping", [perms[0], perms[-1], perms[1]] if ndim == 3 else perms)
+    derive = ctx.choose("derived-by", ["neg", "diff", "rotate90", "mul2", "pad", "laplace", "lshift-restack", "getattr-mesh-copy"])
+    # (writing INTO the dict returned by the vdim_mapping getter is not in the alphabet: the statement does not say
+    # who owns that dict; the setters and the value / validity arrays are the public routes)
+    act = ctx.choose("then", ["vdims = permuted labels", "vdims = new labels", "vdim_mapping = other pairing",
+                               "array[...] of the derived field", "nothing"])
+    n = {2: [4, 3], 3: [4, 3, 2]}[ndim]
+    dims = _dims(ndim, "default")
+    mesh = _mesh(n, dims, GEOMS[0], None)
+    vals = C.tracer(n, ndim, ctx.seed)
+    f, vd, vm = _vector_field(ctx, mesh, ndim, "default", perm, vals)
+    ops = ["div", "laplace_v"] + (["curl"] if ndim == 3 else [])
+    inst = ctx.key()
+    before = {o: np.array(OPS[o](f).array) for o in ops}
+    ctx.step(len(ops))
+    snap = C.field_snap(f)
+    lab0, map0 = list(f.vdims), dict(f.vdim_mapping)
+    if derive == "neg":
+        g = -f
+    elif derive == "diff":
+        g = f.diff(dims[0])
+    elif derive == "rotate90":
+        g = f.rotate90(dims[0], dims[1])
+    elif derive == "mul2":
+        g = f * 2.0
+    elif derive == "pad":
+        g = f.pad({dims[0]: (1, 1)}, mode="constant")
+    elif derive == "laplace":
+        g = f.laplace
+    elif derive == "lshift-restack":
+        g = getattr(f, f.vdims[0])
+        for lab in f.vdims[1:]:
+            g = g << getattr(f, lab)
+    else:
+        g = df.Field(f.mesh, nvdim=ndim, value=f, vdims=f.vdims, vdim_mapping=f.vdim_mapping)
+    ctx.step(1, f"derived by {derive}; then {act}")
+    try:
+        if act == "vdims = permuted labels":
+            g.vdims = list(g.vdims[1:]) + [g.vdims[0]]
+        elif act == "vdims = new labels":
+            g.vdims = ["p", "q", "r"][:ndim]
+        elif act == "vdim_mapping = other pairing":
+            g.vdim_mapping = dict(zip(g.vdims, list(g.mesh.region.dims)[::-1]))
+        elif act == "array[...] of the derived field":
+            g.array[...] = 0.0
+            g.valid[...] = False
+    except Exception as e:  # what the setters of the derived field accept is not this property's business
+        ctx.note(f"relabelling-refused:{type(e).__name__}")
+    ctx.check(2)
+    if list(f.vdims) != lab0 or dict(f.vdim_mapping) != map0:
+        ctx.fail("reuse/original-relabelled-through-a-derived-field", f"derived by {derive}, then {act}: the ORIGINAL now has "
+                 f"vdims {f.vdims} mapping {f.vdim_mapping} (was {lab0} {map0})", instance=inst)
+        return
+    if C.field_snap(f) != snap:
+        ctx.fail("reuse/original-modified-through-a-derived-field", f"derived by {derive}, then {act}", instance=inst)
+        return
+    for o in ops:
+        ctx.step(1, o)
+        raised, r = C.raises(OPS[o], f)
+        ctx.check()
+        if raised:
+            ctx.fail(f"Field.{o}/reuse/raises-after-a-derived-field-was-relabelled", f"{derive}, {act}: {type(r).__name__}: "
+                     f"{str(r)[:140]}", instance=inst)
+            return
+        ctx.observe(np.round(r.array / (np.abs(before[o]).max() or 1.0), 9))
+        if not C.same_bytes(np.asarray(r.array), before[o]):
+            ctx.fail(f"Field.{o}/reuse/result-changed-after-a-derived-field-was-relabelled",
+                     f"{derive}, {act}: {np.asarray(r.array).ravel()[:6].tolist()} before {before[o].ravel()[:6].tolist()}",
+                     instance=inst)
+            return
+
 
 def units(tier):
     return [
@@ -699,6 +780,7 @@ def units(tier):
         {"name": "poly_vector", "fn": unit_poly_vector, "bound": None},
         {"name": "combination", "fn": unit_combination, "bound": None},
         {"name": "value_types", "fn": unit_value_types, "bound": None},
+        {"name": "reuse", "fn": unit_reuse, "bound": None},
         {"name": "identities", "fn": unit_identities, "bound": None},
         {"name": "rotation", "fn": unit_rotation, "bound": None},
         {"name": "refusals", "fn": unit_refusals, "bound": None},
